@@ -27,6 +27,14 @@ class C02FullExecutor(X.C02Executor, _C17.C17Executor):
 
 EXECUTOR = C02FullExecutor
 
+# z3 budget per VC in the quick tier: every proved VC of this pack takes < 0.5 s; a wrong clause is typically `unknown` for z3's
+# sequence solver and `sat` for cvc5 within a second, so waiting the default 10 s per VC only delays refutations (PYVC_TIMEOUT_MS overrides)
+import os as _os
+if not _os.environ.get("PYVC_TIMEOUT_MS"):
+    from pyvc import solve as _solve
+    _solve.QUICK_TIMEOUT_MS = 4000
+EXECUTOR_KW = {"sharepoint2text/parsing/extractors/ms_legacy/rtf_extractor.py::_RtfParser._strip_rtf_full_with_pages": {"unknown_items_are_str": True, "feas_timeout_ms": 30}}
+
 
 def _sl(st, v):
     """(n, cat, lead) of a str list in either representation."""
@@ -772,6 +780,66 @@ def builder_contracts(reg):
     return out
 
 
+# =====================================================================================
+# RTF group walker  --  rtf_extractor.py::_RtfParser._strip_rtf_full_with_pages  (destination skipping)
+#
+# Statement: "content of removed markup never appears" / headers, footers, pictures, objects ... are destinations whose
+# whole group is invisible.  Two-state property of ONE iteration of the character loop, from an arbitrary state
+# (g = group_depth, on = skip_group, d = skip_depth):
+#   a skip starts only on entering a group and targets that group:      not on and on'  ->  g' == g + 1 and d' == g'
+#   while skipping, the target is never changed and the skip ends only
+#   with the closing brace of the group that started it:                on -> (on' and d' == d) or (not on' and g == d and g' == g - 1)
+#   while skipping nothing is emitted:                                   on -> result, current_page unchanged
+# =====================================================================================
+RTF = "sharepoint2text/parsing/extractors/ms_legacy/rtf_extractor.py"
+IS_SKIP = z3.Function("rtf.is_skip_destination", S, B)
+
+
+def rtf_contracts():
+    unk = lambda: Maker(lambda ex, st, n: VUnk(n), desc="any")
+    p_self = p_obj("_RtfParser", {"pages": unk(), "SPECIAL_CHARS": unk(), "SKIP_DESTINATIONS": unk()})
+    isskip = FnContract(target=f"{RTF}::_RtfParser._is_skip_destination", params=[("self", p_self), ("ahead", p_str())], assumed=True,
+                        returns=lambda c: VBool(IS_SKIP(c.args["ahead"].t)), note="which control words are destinations is a table (uninterpreted here)")
+
+    def vars_(lc):
+        g, on, d = lc["group_depth"], lc["skip_group"], lc["skip_depth"]
+        if not (isinstance(g, VInt) and isinstance(on, VBool) and isinstance(d, VInt)):
+            raise X.Unsupported("walker state variables not of the expected kinds")
+        from pyvc import ops
+        return ops.int_term(g), on.t, ops.int_term(d)
+
+    def outs(lc):
+        r = []
+        for nm in ("result", "current_page"):
+            v = lc.st.lookup(nm)
+            n_, c_, _l = _sl(lc.st, v)
+            r.append((n_, c_))
+        return r
+
+    def step(a, b):
+        g0, on0, d0 = vars_(a)
+        g1, on1, d1 = vars_(b)
+        same = z3.And([z3.And(x[0] == y[0], x[1] == y[1]) for x, y in zip(outs(a), outs(b))])
+        return Conj([("skip-starts-on-entering-a-group-and-targets-it", z3.Implies(z3.And(z3.Not(on0), on1), z3.And(g1 == g0 + 1, d1 == g1))),
+                     ("skip-target-fixed-and-ends-at-its-own-closing-brace",
+                      z3.Implies(on0, z3.Or(z3.And(on1, d1 == d0), z3.And(z3.Not(on1), g0 == d0, g1 == g0 - 1)))),
+                     ("nothing-emitted-while-skipping", z3.Implies(on0, same))])
+
+    decode = FnContract(target=f"{RTF}::_decode_unicode_run", params=[("run", unk())], assumed=True,
+                        result_maker=lambda ex, st, ctx: VStr(z3.String(fresh_name("decoded"))), note="\\uN decoding: some string (C04 decides which)")
+    spec = LoopSpec(label="characters")
+    spec.step = step
+    walker = FnContract(
+        target=f"{RTF}::_RtfParser._strip_rtf_full_with_pages",
+        params=[("self", p_self), ("text", p_str())],
+        raises=[Raises("Exception", sub=True)],
+        modifies=("self",),
+        loops={0: spec},
+        note="names the three state variables of the walker (group_depth, skip_group, skip_depth) and its two output lists",
+    )
+    return [isskip, decode, walker]
+
+
 def contracts(reg):
     X.install(reg)
     out = []
@@ -781,6 +849,7 @@ def contracts(reg):
     out += html_contracts(reg)
     out += xls_contracts()
     out += builder_contracts(reg)
+    out += rtf_contracts()
     return out
 
 
@@ -898,6 +967,7 @@ FUNC_OF_CHECK = {
     "pptx.paragraphs": "pptx_extractor.py::_extract_text_from_paragraphs",
     "odp.slide": "odp_extractor.py::_extract_slide",
     "html.source": "html_extractor.py::read_html",
+    "rtf.source": "rtf_extractor.py::read_rtf",
 }
 
 
